@@ -7,6 +7,8 @@ import (
 	"sync"
 
 	"github.com/consensys/gnark-crypto/ecc"
+	fr377 "github.com/consensys/gnark-crypto/ecc/bls12-377/fr"
+	sis377 "github.com/consensys/gnark-crypto/ecc/bls12-377/fr/sis"
 	"github.com/consensys/gnark-crypto/ecc/bn254"
 	"github.com/consensys/gnark-crypto/ecc/bn254/fr"
 	"github.com/consensys/gnark-crypto/ecc/bn254/fr/fft"
@@ -14,17 +16,15 @@ import (
 	"github.com/consensys/gnark-crypto/ecc/bn254/fr/polynomial"
 	"github.com/consensys/gnark-crypto/ecc/bn254/kzg"
 	te "github.com/consensys/gnark-crypto/ecc/bn254/twistededwards"
-	"github.com/consensys/gnark-crypto/field/koalabear"
-	kbp2 "github.com/consensys/gnark-crypto/field/koalabear/poseidon2"
-	kbsis "github.com/consensys/gnark-crypto/field/koalabear/sis"
-	"github.com/consensys/gnark-crypto/field/koalabear/vortex"
-	fext "github.com/consensys/gnark-crypto/field/koalabear/extensions"
 	"github.com/consensys/gnark-crypto/field/babybear"
 	bbsis "github.com/consensys/gnark-crypto/field/babybear/sis"
 	"github.com/consensys/gnark-crypto/field/goldilocks"
 	glsis "github.com/consensys/gnark-crypto/field/goldilocks/sis"
-	fr377 "github.com/consensys/gnark-crypto/ecc/bls12-377/fr"
-	sis377 "github.com/consensys/gnark-crypto/ecc/bls12-377/fr/sis"
+	"github.com/consensys/gnark-crypto/field/koalabear"
+	fext "github.com/consensys/gnark-crypto/field/koalabear/extensions"
+	kbp2 "github.com/consensys/gnark-crypto/field/koalabear/poseidon2"
+	kbsis "github.com/consensys/gnark-crypto/field/koalabear/sis"
+	"github.com/consensys/gnark-crypto/field/koalabear/vortex"
 )
 
 // C18: many goroutines use the same read-only argument objects at once; every one must obtain
@@ -104,7 +104,7 @@ func init() {
 		P, Q = append(P, p), append(Q, q)
 		lines = append(lines, bn254.PrecomputeLines(q))
 		var e fr.Element
-		e.SetUint64(uint64(1000003 * (i + 1))).Exp(e, big.NewInt(17))
+		e.SetUint64(uint64(1000003*(i+1))).Exp(e, big.NewInt(17))
 		sc = append(sc, e)
 	}
 	PI := []bn254.G1Affine{{}, P[0], P[1]}
@@ -208,6 +208,7 @@ func init() {
 			return d(m.Evaluate(sc, &pool))
 		}},
 		{"Element.Exp(negative exponent, pooled big.Int)", func() string { var e fr.Element; e.Exp(sc[0], big.NewInt(-12345)); return e.String() }},
+		{"Element.Exp(ONE negative exponent object shared by all callers)", func() string { var e fr.Element; e.Exp(sc[1], sharedNegExp); return e.String() }},
 		{"GT.Exp(negative exponent, pooled big.Int)", func() string {
 			v, _ := bn254.Pair(P[:1], Q[:1])
 			var e bn254.GT
@@ -291,3 +292,6 @@ func init() {
 		})
 	}
 }
+
+// sharedNegExp: a read-only exponent every caller passes to Exp (an implementation must not use it as scratch space)
+var sharedNegExp = big.NewInt(-987654321)
